@@ -115,6 +115,7 @@ def execute(prop, tier, plan, seed, wdir):
         cov["traces_validated_against_impl"] += rep["runs"]
         cov["impl_steps_validated"] += rep["steps"]
         cov["divergences"] += rep["ndiv"]
+        cov["steps_outside_model_range"] = cov.get("steps_outside_model_range", 0) + rep.get("oor", 0)
         cov["divergence_samples"] += rep["div"][:3]
         cov["unmodelled_sites"] = sorted(set(cov["unmodelled_sites"]) | set(rep.get("unmodelled", [])))
         if len(cov["samples"]) < 4:
